@@ -2,9 +2,9 @@ SPECIFICATION Spec
 CONSTANTS
   Inst = {a, b}
   MaxFiles = 4
-  ReloadOnAcquire = FALSE
+  ReloadOnAcquire = TRUE
   AtomicReload = TRUE
-  ReloadUnderLock = TRUE
+  ReloadUnderLock = FALSE
   MaxZombie = 1
 INVARIANTS TypeOK NoUnmanagedFile NoOrphanAtRest NeverDeletesLiving
 CHECK_DEADLOCK FALSE
